@@ -4,6 +4,7 @@ import PdModel.Spec.C09
 import PdModel.Lemmas.OpCtl
 import PdModel.Lemmas.OpCtlInv
 import PdModel.Lemmas.OpCtlRecords
+import PdModel.Lemmas.OpCtlRecRun
 import PdModel.Generated.OpCtl
 set_option linter.unusedSimpArgs false
 set_option linter.unusedVariables false
@@ -252,6 +253,19 @@ theorem records_name_ended_operators (c : Ctl) (hi : RecInv c) :
     (∀ id, RecInv (bury c id)) ∧
     (∀ c', Le c c' → c'.records = c.records → RecInv c') :=
   ⟨fun id => recInv_bury c id hi, fun c' hle hrec => recInv_of_le c c' hle hrec hi⟩
+
+/-- **records_always_name_ended_operators**: in every run of the controller (any event list, from the empty
+    controller or from any state whose records are sound) every record `region ↦ operator` names an existing
+    operator of that region which is in an end status – so what `GetRecords` / `GetOperatorStatus` report about
+    a finished operator is final.  Proved by replaying the `le_*` lemmas for the stronger relation
+    `K = Le ∧ keeps RecInv` through all controller functions (`Lemmas/OpCtlRecRun.lean`). -/
+theorem records_always_name_ended_operators (evs : List Ev) (r id : Nat)
+    (h : (r, id) ∈ (runEv {} evs).records) :
+    ∃ o, (runEv {} evs).getOp id = some o ∧ o.region = r ∧ o.status.isEnd = true :=
+  recInv_runEv {} evs recInv_empty r id h
+
+theorem records_sound_from_any_state (c : Ctl) (hi : RecInv c) (evs : List Ev) : RecInv (runEv c evs) :=
+  recInv_runEv c evs hi
 
 /-- non-vacuity: a running operator, removed -/
 example :
